@@ -9,6 +9,7 @@ CONSTANTS
   DEV_StarEmptySeg = FALSE
   DEV_IgnoreRelToSrc = FALSE
   DEV_NestedDstFsPath = FALSE
+  DEV_LinkValidatedOnDisk = FALSE
   DEV_DerefSpecial = FALSE
 INVARIANT TypeOK
 CHECK_DEADLOCK FALSE
